@@ -6,12 +6,14 @@ import (
 	"github.com/markusressel/fan2go/internal/zzv"
 )
 
-//zzv:bound T1 = real SafeCmdExecution for every modelled outcome of starting a root-controlled command: exit 0, non-zero exit (*exec.ExitError), cannot be started (*fs.PathError: not executable / bad format), killed at the deadline: the call does not panic
+//zzv:bound T1 = real SafeCmdExecution for every modelled outcome of starting a root-controlled command: exit 0, non-zero exit (*exec.ExitError, with an empty / unterminated / one-line / two-line stderr), cannot be started (*fs.PathError: not executable / bad format), killed at the deadline: the call does not panic
 //zzv:bound T2 = same: the result is either (trimmed output, nil) or ("", non-nil error)
 //zzv:outside the wall-clock bound (timeout + margin) and grandchildren holding the output pipe open: properties of os/exec, pipes and the kernel that this encoder cannot express; callers in fans/cmd.go and sensors/cmd.go are covered by C09
 //zzv:stub exec.Cmd.Output returns one of the outcomes above, chosen by the harness
 
 var zzTexts = []string{"42", "42\n", "", "not a number", "nan"}
+
+var zzStderrs = []string{"", "boom", "boom\n", "two\nlines\n"}
 
 func ZZ_C19_T_Outcomes() {
 	zzv.RealCommands()
@@ -19,7 +21,8 @@ func ZZ_C19_T_Outcomes() {
 	path := dir + "/tool"
 	scenario := zzv.Choice("scenario", 5)
 	text := zzTexts[zzv.Choice("text", len(zzTexts))]
-	zzv.ExecScenario(path, scenario, text)
+	stderr := zzStderrs[zzv.Choice("stderr", len(zzStderrs))]
+	zzv.ExecScenarioStderr(path, scenario, text, stderr)
 	out, err := SafeCmdExecution(path, []string{}, 2*time.Second)
 	zzv.RecordB("error", err != nil)
 	if err != nil {
